@@ -37,6 +37,7 @@ FUNCS = [
     ("distributed_shampoo/utils/shampoo_preconditioner_list.py", "BaseShampooPreconditionerList._precondition_grad"),
     ("distributed_shampoo/utils/shampoo_preconditioner_list.py", "BaseShampooPreconditionerList._get_inverse_roots_from_override_with_high_order_default"),
     ("distributed_shampoo/utils/shampoo_distributor.py", "Distributor.update_params"),
+    ("matrix_functions.py", "check_diagonal"),
     ("distributed_shampoo/utils/shampoo_preconditioner_list.py", "AdagradPreconditionerList.update_preconditioners"),
     ("distributed_shampoo/utils/shampoo_preconditioner_list.py", "AdagradPreconditionerList.precondition"),
     ("distributed_shampoo/utils/shampoo_preconditioner_list.py", "SGDPreconditionerList.precondition"),
@@ -64,7 +65,7 @@ def cases(tier):
                     cs.append(f"group_step/{graft}/{alias}/{dec}/{fg}")
     from checks import plist
     cs += plist.shampoo_cases(tier)
-    cs += ["wiring/instantiate", "wiring/defaults"]
+    cs += ["wiring/instantiate", "wiring/defaults", "wiring/steps-per-group", "contract/check_diagonal"]
     for a in "01":
         for b in "01":
             for c in "01":
@@ -210,6 +211,14 @@ def replay_file(doc):
         except BaseException as ex:  # noqa
             bad = f"real optimizer raised {type(ex).__name__}: {ex}"
         return bool(bad), f"config {cfg} shapes {shapes} presence {hist}: {bad}"
+    if rp.get("kind") == "two_group_steps":
+        from checks import wiring
+        bad = wiring.native_two_group_steps()
+        return bool(bad), bad or "per-group step counters advance independently"
+    if rp.get("kind") == "checkdiag":
+        from checks import mf
+        bad = mf.native_checkdiag()
+        return bool(bad), bad or "check_diagonal is exact on tiny off-diagonal entries"
     if rp.get("kind") == "stepflags":
         from checks import stepflags
         return stepflags.replay_flags(rp, m)
@@ -238,6 +247,14 @@ def replay_file(doc):
 def run_case(case, tier, seed):
     if case.startswith("group_step/"):
         return _group_step_case(case, tier)
+    if case == "contract/check_diagonal":
+        # contract [D] the list classes rely on (the flag selects the diagonal fast path of the root computation): re-discharged here on
+        # the real matrix_functions.check_diagonal so that a change to it is reported by this property's own check
+        from checks import mf
+        return mf.run_checkdiag(case)
+    if case == "wiring/steps-per-group":
+        from checks import wiring
+        return wiring.run_steps_two_groups(case, tier)
     if case == "wiring/instantiate":
         from checks import wiring
         return wiring.run(case, tier)
